@@ -14,6 +14,11 @@ Abstract scope (plain dicts, JSON-able):
   vars      [var]          var = {"name", "vk": type|class|procedure, "proto": str}
   args      [var]  ret: var | None          (procedures)
   kids      [scope]        nested procedures in source order
+  blocks    [block]        (optional; programs and procedures) BLOCK constructs of the execution part
+            block = {"label": str|None, "end": spelling of the END BLOCK keyword(s), "uses": [use],
+                     "types": [type without CONTAINS part], "absints": [str], "ifaces": [str],
+                     "vars": [var], "blocks": [block]}
+            A BLOCK is a scoping unit: what it declares or use-associates is local to it.
 
 Every name of a type comes from TY, every procedure-like name from PR (three
 names each, any letter case), so that equal names meet in module vs. internal
@@ -96,6 +101,69 @@ def gen_type(rng, ctr, name, earlier, local_all, cands=()):
         elif rng.random() < 0.15:
             t["finals"].append(spell(rng, rng.choice(PR_REF)))
     return t
+
+
+END_BLOCK = ["end block", "end block", "endblock", "END BLOCK", "End Block"]
+
+
+def gen_block_use(rng, nmods, reexp):
+    """one USE statement of a BLOCK: plain, with renames, or with an ONLY list"""
+    m = f"m{rng.randrange(nmods)}"
+    r = rng.random()
+    if r < 0.4:
+        return {"mod": spell(rng, m), "only": None}
+    if r < 0.6:
+        ren = gen_renames(rng, reexp.get(m, []), False)
+        u = {"mod": spell(rng, m), "only": None}
+        if ren:
+            u["ren"] = ren
+        return u
+    only, seen_rem, seen_loc = [], set(), set()
+    for _ in range(rng.choice([1, 2, 2])):
+        pool = TY if rng.random() < 0.5 else PR
+        rem = rng.choice(pool)
+        loc = rem if rng.random() < 0.75 else (TY_ALIAS if pool is TY else PR_ALIAS)
+        if rem in seen_rem or loc in seen_loc:
+            continue
+        seen_rem.add(rem)
+        seen_loc.add(loc)
+        only.append([spell(rng, loc), spell(rng, rem)])
+    return {"mod": spell(rng, m), "only": only or None}
+
+
+def gen_block(rng, ctr, nmods, reexp, avoid_t=(), avoid_p=(), level=0, p_use=0.35, tnames=None, pnames=None):
+    """a BLOCK construct whose local names come from the same pools as everything else, so that
+    they meet same-named entities of the enclosing procedure, its host and the modules"""
+    b = {"label": ctr.next("blk") if rng.random() < 0.3 else None, "end": rng.choice(END_BLOCK),
+         "uses": [], "types": [], "absints": [], "ifaces": [], "vars": [], "blocks": []}
+    if nmods and rng.random() < p_use:
+        b["uses"].append(gen_block_use(rng, nmods, reexp))
+    if tnames is None:
+        tnames = rng.sample(TY, rng.choice([0, 1, 1, 2]))
+    for i, n in enumerate(tnames):
+        t = {"name": spell(rng, n), "extends": None, "comps": [], "binds": [], "deferred": [], "finals": []}
+        if rng.random() < 0.2:
+            # parent: a type declared earlier in this block, or one the block does not declare and
+            # the enclosing procedure does not declare either
+            allowed = [x for x in TY_REF if x in tnames[:i] or (x not in tnames and x not in avoid_t)]
+            if allowed:
+                t["extends"] = spell(rng, rng.choice(allowed))
+        for _ in range(rng.choice([0, 0, 1, 2])):
+            t["comps"].append(gen_var(rng, ctr, "c"))
+        b["types"].append(t)
+    if pnames is None:
+        ppool = [x for x in PR if x not in avoid_p]
+        pnames = rng.sample(ppool, min(len(ppool), rng.choice([0, 0, 1, 1, 2])))
+    for n in pnames:
+        if rng.random() < 0.6:
+            b["absints"].append(spell(rng, n))
+        else:
+            b["ifaces"].append(spell(rng, n))
+    for _ in range(rng.choice([0, 1, 1, 2])):
+        b["vars"].append(gen_var(rng, ctr, "w"))
+    if level == 0 and rng.random() < 0.25:
+        b["blocks"].append(gen_block(rng, ctr, nmods, reexp, avoid_t, avoid_p, 1, p_use))
+    return b
 
 
 def gen_scope(rng, ctr, kind, name, depth, nmods, visible_p, root_kind=None, reexp=None):
@@ -196,6 +264,11 @@ def gen_scope(rng, ctr, kind, name, depth, nmods, visible_p, root_kind=None, ree
     for n in kid_names:
         k = rng.choice(["function", "subroutine"])
         s["kids"].append(gen_scope(rng, ctr, k, spell(rng, n), depth + 1, nmods, vis, root_kind, reexp))
+    # BLOCK constructs in the execution part of a program / procedure
+    if kind != "module" and rng.random() < 0.3:
+        own = {name.lower()} if kind in ("function", "subroutine") else set()
+        for _ in range(rng.choice([1, 1, 2])):
+            s.setdefault("blocks", []).append(gen_block(rng, ctr, nmods, reexp, set(tnames), own))
     return s
 
 
@@ -490,6 +563,134 @@ def gen_rename_project(rng):
     return {"units": units}
 
 
+def gen_block_project(rng):
+    """BLOCK constructs next to same-named entities: m0 declares types and procedure-like entities;
+    a host (module / program / external procedure) declares same-named ones itself or
+    use-associates m0's; a procedure P of the host (or the host itself) has BLOCK constructs that
+    declare types / abstract interfaces / interfaces of those names or use-associate them; the
+    names (and undeclared ones) are referenced outside the BLOCKs - by P's arguments, result,
+    variables and local types, by a procedure internal to P, by a sibling of P and by the host."""
+    ctr = Ctr()
+    tys = rng.sample(TY, rng.choice([1, 2, 3]))
+    prs = rng.sample(PR, rng.choice([1, 2]))
+    m0 = empty_scope("module", spell(rng, "m0"))
+    for n in tys:
+        m0["types"].append(_plain_type(rng, n))
+    for n in prs:
+        r = rng.random()
+        if r < 0.4:
+            m0["kids"].append(empty_scope("subroutine", spell(rng, n)))
+        elif r < 0.8:
+            m0["absints"].append(spell(rng, n))
+        else:
+            m0["ifaces"].append(spell(rng, n))
+    names = tys + prs
+    reexp = {}
+    host_kind = rng.choice(["module", "module", "module", "program", "subroutine"])
+    hname = {"module": "m1", "program": "prog", "subroutine": rng.choice(PR)}[host_kind]
+    host = empty_scope(host_kind, spell(rng, hname))
+    r = rng.random()
+    if r < 0.35:
+        host["uses"].append({"mod": spell(rng, "m0"), "only": None})
+        host_has = set(names)
+    elif r < 0.5:
+        pick = rng.sample(names, rng.choice([1, min(2, len(names))]))
+        host["uses"].append({"mod": spell(rng, "m0"), "only": [[spell(rng, n), spell(rng, n)] for n in pick]})
+        host_has = set(pick)
+    else:
+        host_has = set()
+    for n in names:
+        # the host's own entity of the name
+        if n not in host_has and n != hname and rng.random() < 0.5:
+            if n in TY:
+                host["types"].append(_plain_type(rng, n))
+            else:
+                host["absints"].append(spell(rng, n))
+            host_has.add(n)
+
+    def refs(sc, k, prefix="v", where="vars"):
+        pool = list(dict.fromkeys(names + [rng.choice(TY_REF), rng.choice(PR_REF)]))
+        for n in rng.sample(pool, min(len(pool), k)):
+            if n in TY_REF:
+                sc[where].append({"name": ctr.next(prefix), "vk": rng.choice(["type", "class"]), "proto": spell(rng, n)})
+            else:
+                sc[where].append({"name": ctr.next(prefix), "vk": "procedure", "proto": spell(rng, n)})
+
+    def blocks_for(sc, own):
+        for _ in range(rng.choice([1, 1, 2])):
+            # the block's names are (mostly) names that also exist outside it
+            tn = [n for n in rng.sample(TY, rng.choice([1, 1, 2])) if n in tys or rng.random() < 0.3]
+            pn = [n for n in rng.sample(PR, rng.choice([0, 1, 1])) if n not in own and (n in prs or rng.random() < 0.3)]
+            declared_t = {t["name"].lower() for t in sc["types"]}
+            b = gen_block(rng, ctr, 1, reexp, declared_t, own, 0, 0.35, tn, pn)
+            sc.setdefault("blocks", []).append(b)
+
+    def local_type(sc):
+        free = [n for n in TY if n not in {t["name"].lower() for t in sc["types"]}]
+        if not free:
+            return
+        t = _plain_type(rng, rng.choice(free))
+        tpool = [n for n in TY_REF if n != t["name"].lower()]
+        if rng.random() < 0.5:
+            t["extends"] = spell(rng, rng.choice(tpool))
+        for _ in range(rng.choice([1, 2])):
+            if rng.random() < 0.6:
+                t["comps"].append({"name": ctr.next("c"), "vk": "type", "proto": spell(rng, rng.choice(tpool))})
+            else:
+                t["comps"].append({"name": ctr.next("c"), "vk": "procedure", "proto": spell(rng, rng.choice(PR_REF))})
+        if rng.random() < 0.3:
+            t["deferred"].append({"name": ctr.next("b"), "proto": spell(rng, rng.choice(PR_REF))})
+        sc["types"].append(t)
+
+    def proc_with_blocks(pname):
+        P = empty_scope(rng.choice(["subroutine", "function"]), spell(rng, pname))
+        if P["kind"] == "function":
+            P["ret"] = gen_var(rng, ctr, "r") if rng.random() < 0.7 else {"name": ctr.next("r"), "vk": "integer", "proto": None}
+        refs(P, rng.choice([1, 2]), "x", "args")
+        refs(P, rng.choice([1, 2, 3]))
+        if rng.random() < 0.35:
+            local_type(P)
+        return P
+
+    if host_kind == "module":
+        free = [n for n in PR if n not in [a.lower() for a in host["absints"]]] or list(PR)
+        P = proc_with_blocks(free[0])
+        own = {free[0]}
+        inner_names = [n for n in PR if n != free[0]]
+        if rng.random() < 0.6:
+            Q = empty_scope("subroutine", spell(rng, rng.choice(inner_names)))
+            refs(Q, rng.choice([1, 2, 3]))
+            P["kids"].append(Q)
+            own.add(Q["name"].lower())
+        blocks_for(P, own)
+        host["kids"].append(P)
+        if len(free) > 1 and rng.random() < 0.5:
+            R = empty_scope(rng.choice(["subroutine", "function"]), spell(rng, free[1]))
+            if R["kind"] == "function":
+                R["ret"] = {"name": ctr.next("r"), "vk": "integer", "proto": None}
+            refs(R, 2)
+            host["kids"].append(R)
+        refs(host, rng.choice([0, 1, 2]))
+    else:
+        # the program / external procedure has the BLOCKs itself, or a procedure internal to it has
+        own = {hname} if host_kind == "subroutine" else set()
+        free = [n for n in PR if n != hname and n not in [a.lower() for a in host["absints"]]] or [n for n in PR if n != hname]
+        Q = None
+        if rng.random() < 0.7:
+            Q = empty_scope("subroutine", spell(rng, free[0]))
+            refs(Q, rng.choice([1, 2, 3]))
+            host["kids"].append(Q)
+            own.add(free[0])
+        refs(host, rng.choice([1, 2, 3]))
+        if rng.random() < 0.3:
+            local_type(host)
+        if Q is not None and rng.random() < 0.35:
+            blocks_for(Q, {free[0]})
+        else:
+            blocks_for(host, own)
+    return {"units": [m0, host]}
+
+
 # ------------------------------------------------------------------ rendering
 
 def render_var(v, extra=""):
@@ -508,6 +709,56 @@ def render_arg(v):
     return f"integer :: {v['name']}"
 
 
+def render_use(u, q, out):
+    if u["only"] is None:
+        out.append(f"{q}use {u['mod']}" + "".join(f", {l} => {r}" for l, r in u.get("ren", [])))
+    else:
+        items = [l if l.lower() == r.lower() and l == r else f"{l} => {r}" for l, r in u["only"]]
+        out.append(f"{q}use {u['mod']}, only: {', '.join(items)}")
+
+
+def render_type(t, q, out):
+    attrs = ""
+    if t["deferred"]:
+        attrs += ", abstract"
+    if t["extends"]:
+        attrs += f", extends({t['extends']})"
+    out.append(f"{q}type{attrs} :: {t['name']}")
+    for c in t["comps"]:
+        out.append(f"{q}  {render_var(c, ', nopass')}")
+    if t["binds"] or t["deferred"] or t["finals"]:
+        out.append(f"{q}contains")
+        for b in t["binds"]:
+            out.append(f"{q}  procedure, nopass :: {b['name']} => {b['target']}")
+        for b in t["deferred"]:
+            out.append(f"{q}  procedure({b['proto']}), deferred, nopass :: {b['name']}")
+        for f in t["finals"]:
+            out.append(f"{q}  final :: {f}")
+    out.append(f"{q}end type")
+
+
+def render_ifaces(s, q, out):
+    for a in s["absints"]:
+        out += [f"{q}abstract interface", f"{q}  subroutine {a}()", f"{q}  end subroutine", f"{q}end interface"]
+    for a in s["ifaces"]:
+        out += [f"{q}interface", f"{q}  subroutine {a}()", f"{q}  end subroutine", f"{q}end interface"]
+
+
+def render_block(b, out, q):
+    out.append(f"{q}{b['label']}: block" if b.get("label") else f"{q}block")
+    r = q + "  "
+    for u in b["uses"]:
+        render_use(u, r, out)
+    for t in b["types"]:
+        render_type(t, r, out)
+    render_ifaces(b, r, out)
+    for v in b["vars"]:
+        out.append(f"{r}{render_var(v)}")
+    for c in b.get("blocks", []):
+        render_block(c, out, r)
+    out.append(f"{q}{b.get('end', 'end block')}" + (f" {b['label']}" if b.get("label") else ""))
+
+
 def render_scope(s, out, ind=0):
     p = "  " * ind
     k = s["kind"]
@@ -519,33 +770,10 @@ def render_scope(s, out, ind=0):
         out.append(f"{p}{k} {s['name']}")
     q = p + "  "
     for u in s["uses"]:
-        if u["only"] is None:
-            out.append(f"{q}use {u['mod']}" + "".join(f", {l} => {r}" for l, r in u.get("ren", [])))
-        else:
-            items = [l if l.lower() == r.lower() and l == r else f"{l} => {r}" for l, r in u["only"]]
-            out.append(f"{q}use {u['mod']}, only: {', '.join(items)}")
+        render_use(u, q, out)
     for t in s["types"]:
-        attrs = ""
-        if t["deferred"]:
-            attrs += ", abstract"
-        if t["extends"]:
-            attrs += f", extends({t['extends']})"
-        out.append(f"{q}type{attrs} :: {t['name']}")
-        for c in t["comps"]:
-            out.append(f"{q}  {render_var(c, ', nopass')}")
-        if t["binds"] or t["deferred"] or t["finals"]:
-            out.append(f"{q}contains")
-            for b in t["binds"]:
-                out.append(f"{q}  procedure, nopass :: {b['name']} => {b['target']}")
-            for b in t["deferred"]:
-                out.append(f"{q}  procedure({b['proto']}), deferred, nopass :: {b['name']}")
-            for f in t["finals"]:
-                out.append(f"{q}  final :: {f}")
-        out.append(f"{q}end type")
-    for a in s["absints"]:
-        out += [f"{q}abstract interface", f"{q}  subroutine {a}()", f"{q}  end subroutine", f"{q}end interface"]
-    for a in s["ifaces"]:
-        out += [f"{q}interface", f"{q}  subroutine {a}()", f"{q}  end subroutine", f"{q}end interface"]
+        render_type(t, q, out)
+    render_ifaces(s, q, out)
     for g in s["generics"]:
         out.append(f"{q}interface {g['name']}")
         kw = "module procedure" if k == "module" else "procedure"
@@ -558,6 +786,8 @@ def render_scope(s, out, ind=0):
         out.append(f"{q}{render_arg(a)}")
     if s["ret"]:
         out.append(f"{q}{render_arg(s['ret'])}")
+    for b in s.get("blocks", []):
+        render_block(b, out, q)
     if s["kids"]:
         out.append(f"{p}contains")
         for c in s["kids"]:
@@ -585,6 +815,11 @@ class Flat:
                 "get": accessor on the FORD side}
     scopes[k] = {"path", "parent": index|None, "unit": index of the top-level unit, "node": abstract scope,
                  "local": {ns: {lname: ent}}, "slots": [ids]}
+    A BLOCK construct is a scope of its own (`"block": True`, parent = the enclosing procedure or
+    BLOCK).  FORD has no object for it and records no reference inside it, so its slots are
+    `optional` (evaluated only if the implementation under test does record the reference) and
+    are not part of the model's encoding; the model gets the block's USE statements and
+    declarations between "[" and "]".
     """
 
     def __init__(self, P):
@@ -601,18 +836,65 @@ class Flat:
         self.ents.append({"cls": cls, "name": name.lower(), "path": list(path)})
         return len(self.ents) - 1
 
-    def new_slot(self, sidx, kind, phase, name, what, get):
+    def new_slot(self, sidx, kind, phase, name, what, get, optional=False):
         self.slots.append({"kind": kind, "phase": phase, "name": name, "scope": sidx, "what": what, "get": get})
         i = len(self.slots) - 1
         self.scopes[sidx]["slots"].append(i)
-        self.tokens += ["X", str(i), kind, phase, name]
+        if optional:
+            self.slots[i]["optional"] = True
+        else:
+            self.tokens += ["X", str(i), kind, phase, name]
         return i
 
-    def var_slot(self, sidx, v, phase, what, get):
+    def var_slot(self, sidx, v, phase, what, get, optional=False):
         if v["vk"] in ("type", "class"):
-            self.new_slot(sidx, "ty", phase, v["proto"], what, get)
+            self.new_slot(sidx, "ty", phase, v["proto"], what, get, optional)
         elif v["vk"] == "procedure":
-            self.new_slot(sidx, "pa", phase, v["proto"], what, get)
+            self.new_slot(sidx, "pa", phase, v["proto"], what, get, optional)
+
+    def use_tokens(self, u):
+        items = u.get("ren", []) if u["only"] is None else u["only"]
+        self.tokens += ["U", u["mod"], "a" if u["only"] is None else "o", str(len(items))]
+        for l, r in items:
+            self.tokens += [l, r]
+
+    def block(self, b, parent, ppath, unit, owner, counter):
+        """a BLOCK construct nested in scope `parent`; `owner` = the code unit whose execution
+        part contains it (the unit FORD would file a leaked statement in)"""
+        counter[0] += 1
+        path = ppath + [("block", f"#{counter[0]}")]
+        sidx = len(self.scopes)
+        rec = {"path": path, "parent": parent, "unit": unit, "node": b, "ent": None, "block": True, "owner": owner,
+               "local": {"t": {}, "p": {}, "a": {}}, "slots": [], "kids": [], "blocks": []}
+        self.scopes.append(rec)
+        self.scopes[parent]["blocks"].append(sidx)
+        self.tokens.append("[")
+        for u in b["uses"]:
+            self.use_tokens(u)
+        spath = ["/".join(f"{k}:{n}" for k, n in path)]
+        for t in b["types"]:
+            e = self.new_ent("type", t["name"], spath)
+            rec["local"]["t"][t["name"].lower()] = e
+            self.tokens += ["D", "t", t["name"], str(e)]
+        for a in b["absints"]:
+            e = self.new_ent("absint", a, spath)
+            rec["local"]["a"][a.lower()] = e
+            self.tokens += ["D", "a", a, str(e)]
+        for a in b["ifaces"]:
+            e = self.new_ent("iface", a, spath)
+            rec["local"]["p"][a.lower()] = e
+            self.tokens += ["D", "p", a, str(e)]
+        for ti, t in enumerate(b["types"]):
+            tn = t["name"].lower()
+            if t["extends"]:
+                self.new_slot(sidx, "ty", "e", t["extends"], f"block type {tn} extends", ("extends", ti), True)
+            for ci, c in enumerate(t["comps"]):
+                self.var_slot(sidx, c, "e", f"block type {tn} component {c['name']}", ("comp", ti, ci), True)
+        for v in b["vars"]:
+            self.var_slot(sidx, v, "l", f"block variable {v['name']}", ("var", v["name"]), True)
+        for c in b.get("blocks", []):
+            self.block(c, sidx, path, unit, owner, counter)
+        self.tokens.append("]")
 
     def scope(self, s, ent, parent, ppath, unit):
         path = ppath + [(s["kind"], s["name"].lower())]
@@ -620,16 +902,13 @@ class Flat:
         if unit is None:
             unit = sidx
         rec = {"path": path, "parent": parent, "unit": unit, "node": s, "ent": ent,
-               "local": {"t": {}, "p": {}, "a": {}}, "slots": [], "kids": []}
+               "local": {"t": {}, "p": {}, "a": {}}, "slots": [], "kids": [], "blocks": []}
         self.scopes.append(rec)
         if parent is not None:
             self.scopes[parent]["kids"].append(sidx)
         self.tokens += ["(", s["name"], str(ent), "1" if s["kind"] == "function" else "0"]
         for u in s["uses"]:
-            items = u.get("ren", []) if u["only"] is None else u["only"]
-            self.tokens += ["U", u["mod"], "a" if u["only"] is None else "o", str(len(items))]
-            for l, r in items:
-                self.tokens += [l, r]
+            self.use_tokens(u)
         spath = ["/".join(f"{k}:{n}" for k, n in path)]
         for t in s["types"]:
             e = self.new_ent("type", t["name"], spath)
@@ -678,6 +957,9 @@ class Flat:
             self.var_slot(sidx, a, "l", f"argument {a['name']}", ("arg", ai))
         if s["ret"]:
             self.var_slot(sidx, s["ret"], "l", "result", ("ret",))
+        counter = [0]
+        for b in s.get("blocks", []):
+            self.block(b, sidx, path, unit, sidx, counter)
         for c, e in zip(s["kids"], kid_ents):
             self.scope(c, e, sidx, path, unit)
         self.tokens.append(")")
@@ -696,10 +978,12 @@ def oracle(F: Flat):
     in that position)."""
     exports = {}
     frames = {}
+    F.use_frames = {}  # what the USE statements alone make accessible in a scope (for `classify`)
 
     def frame_of(sidx):
         rec = F.scopes[sidx]
         fr = {ns: {n: {e} for n, e in tab.items()} for ns, tab in rec["local"].items()}
+        F.use_frames[sidx] = uf = {"t": {}, "p": {}, "a": {}}
         for u in rec["node"]["uses"]:
             ex = exports.get(u["mod"].lower())
             if ex is None:
@@ -714,10 +998,12 @@ def oracle(F: Flat):
                     for n, es in ex[ns].items():
                         for ln in local_names.get(n, [n]):
                             fr[ns].setdefault(ln, set()).update(es)
+                            uf[ns].setdefault(ln, set()).update(es)
                 else:
                     for l, r in u["only"]:
                         if r.lower() in ex[ns]:
                             fr[ns].setdefault(l.lower(), set()).update(ex[ns][r.lower()])
+                            uf[ns].setdefault(l.lower(), set()).update(ex[ns][r.lower()])
         return fr
 
     # units in order; modules export their top-level frame
@@ -771,8 +1057,10 @@ def oracle(F: Flat):
     return exp, where, frames
 
 
-def classify(F: Flat, frames, where, i, observed):
-    """Known defect class of a failing slot (decidable on the abstract project), or None."""
+def classify(F: Flat, frames, where, i, observed, block_use=True):
+    """Known defect class of a failing slot (decidable on the abstract project), or None.
+    block_use = False: class (4) is not considered (the tree does not file block-local USE
+    statements in the enclosing unit)."""
     sl = F.slots[i]
     n = sl["name"].lower()
     anc = set()
@@ -783,6 +1071,16 @@ def classify(F: Flat, frames, where, i, observed):
     unit = F.scopes[sl["scope"]]["unit"]
     chain_frames = [s for s in anc]
     depth = {s: len(F.scopes[s]["path"]) for s in anc}
+    # (4) a USE statement inside a BLOCK construct is filed in the enclosing code unit: FORD's entity
+    #     is one that a BLOCK which does not enclose the reference, in the execution part of a code
+    #     unit that does enclose it, use-associates under that name
+    if observed is not None and block_use:
+        for k, rec in enumerate(F.scopes):
+            if rec.get("block") and k not in anc and rec["owner"] in anc:
+                uf = F.use_frames.get(k, {})
+                spaces = ["t"] if sl["kind"] == "ty" else ["p"] if sl["kind"] == "pr" else ["p", "a"]
+                if any(observed in uf.get(ns, {}).get(n, ()) for ns in spaces):
+                    return "C07-block-use-leaks-into-enclosing-unit"
     # (1) shared dict objects: a type / abstract interface of that name is declared in or
     #     use-associated into a scope of the same top-level unit that does not enclose the reference
     if sl["kind"] in ("ty", "pa"):
